@@ -172,6 +172,11 @@ func resOfMsg(resp *kmip.ResponseMessage, err error) (string, int) {
 }
 func resOfItem(bi *kmip.ResponseBatchItem, err error) (string, int) {
 	if err != nil {
+		// a failure of the core comes with the item the core built for it (status, reason, message): a stage receives what its
+		// successor returned, the item included. (Errors made by a stage of the harness carry the stage's number and no item.)
+		if m := errMarker(err.Error()); m == -1 && bi == nil {
+			return "err-without-the-item", m
+		}
 		return "err", errMarker(err.Error())
 	}
 	if bi == nil {
